@@ -252,6 +252,8 @@ type TTMLInDuration struct {
 	d                 time.Duration
 	frames, framerate int // Framerate is in frame/s
 	ticks, tickrate   int // Tickrate is in ticks/s
+	// Value of an offset time expressed in frames or in ticks, fraction included (zero otherwise)
+	framesValue, ticksValue float64
 }
 
 // UnmarshalText implements the TextUnmarshaler interface
@@ -264,6 +266,8 @@ func (d *TTMLInDuration) UnmarshalText(i []byte) (err error) {
 	d.d = time.Duration(0)
 	d.frames = 0
 	d.ticks = 0
+	d.framesValue = 0
+	d.ticksValue = 0
 
 	// Check offset time
 	text := string(i)
@@ -281,8 +285,10 @@ func (d *TTMLInDuration) UnmarshalText(i []byte) (err error) {
 		// Update duration
 		if metric == "t" {
 			d.ticks = int(value)
+			d.ticksValue = value
 		} else if metric == "f" {
 			d.frames = int(value)
+			d.framesValue = value
 		} else {
 			// Get timebase
 			var timebase time.Duration
@@ -325,12 +331,20 @@ func (d *TTMLInDuration) UnmarshalText(i []byte) (err error) {
 
 // duration returns the input TTML Duration's time.Duration
 func (d TTMLInDuration) duration() (o time.Duration) {
-	if d.ticks > 0 && d.tickrate > 0 {
-		return time.Duration(math.Round(float64(d.ticks) * 1e9 / float64(d.tickrate)))
+	if (d.ticks > 0 || d.ticksValue > 0) && d.tickrate > 0 {
+		var ticks = float64(d.ticks)
+		if d.ticksValue > 0 {
+			ticks = d.ticksValue
+		}
+		return time.Duration(math.Round(ticks * 1e9 / float64(d.tickrate)))
 	}
 	o = d.d
-	if d.frames > 0 && d.framerate > 0 {
-		o += time.Duration(math.Round(float64(d.frames) / float64(d.framerate) * float64(time.Second.Nanoseconds())))
+	if (d.frames > 0 || d.framesValue > 0) && d.framerate > 0 {
+		var frames = float64(d.frames)
+		if d.framesValue > 0 {
+			frames = d.framesValue
+		}
+		o += time.Duration(math.Round(frames / float64(d.framerate) * float64(time.Second.Nanoseconds())))
 	}
 	return
 }
